@@ -1,10 +1,10 @@
 (** C09 — raw strings, JSON literals and quoted identifiers denote exactly their
     value (partial: the theorems cover every spellable raw string, every JSON
-    spelling of a string as quoted identifier and as string literal, and unquoted
-    identifiers; backtick literals holding numbers, arrays and objects — the
-    JSON reader beyond strings — are decided by correspondence against an
-    independent round-trip expectation).  Statements only. *)
-From JP Require Import Base F64 Value JsonPrint Lexer Parser Proofs.LexProof Proofs.JsonStrProof.
+    spelling of a string as quoted identifier and as string literal, every
+    float-free JSON value as a backtick literal, and unquoted identifiers;
+    literals holding floating-point numerals are decided by correspondence
+    against an independent round-trip expectation).  Statements only. *)
+From JP Require Import Base F64 Value JsonPrint Lexer Parser Proofs.LexProof Proofs.JsonStrProof Proofs.JsonRoundProof.
 
 (** The raw-string spelling (only the quote escaped) of every backslash-free
     string — any code points, any length — lexes to the literal holding exactly
@@ -71,6 +71,17 @@ Print Assumptions C09_string_literal.
 Theorem C09_backtick_unescape_inverts_spelling : forall s, unescape 96 (bt_spell s) = s.
 Proof. exact unescape_bt_all. Qed.
 Print Assumptions C09_backtick_unescape_inverts_spelling.
+
+(** JSON literals: for every JSON value without floating-point numbers (nesting
+    below the reader's limit), the literal holding its JSON text — backticks
+    written backslash-backtick — compiles to exactly that value. *)
+Theorem C09_json_literal : forall v d, plain d v -> (d <= 127)%nat -> parse (96 :: bt_spell (jtext v) ++ [96]) = Ok (ALiteral v).
+Proof. exact json_literal_compile. Qed.
+Print Assumptions C09_json_literal.
+
+Theorem C09_json_literal_text_is_the_printed_text : forall v d, plain d v -> print_json v = Ok (jtext v).
+Proof. exact print_json_jtext. Qed.
+Print Assumptions C09_json_literal_text_is_the_printed_text.
 
 (** An unquoted identifier lexes to exactly its name. *)
 Theorem C09_unquoted_identifier : forall c s, is_alpha_ c = true -> ident_chars s ->
